@@ -1,14 +1,26 @@
 """C01 minimiser: deterministic greedy shrinking of a failing source text.
 
 The derivation that is shrunk is CPython's own parse of the failing text (the concrete layer may
-have respelled the canonical text, so the text - not the generator's tree - is the ground truth):
-sub-trees are replaced by the simplest alternative of their sort (`a`, `1`, `()`, `pass`, `_`,
-`if a:` header), children are hoisted over their parents, matched parentheses, token windows, line
-windows and line breaks are deleted, literals / names / operators are replaced by the simplest one of
-their kind, layout oddities (tabs, CR, form feeds, continuation lines, comments, trailing blanks) are
-normalised.  A candidate is taken iff it is strictly smaller in a well-founded order, CPython still
-accepts it, and the real parser fails on it with the *same signature*.  First improvement wins and the
-search restarts from it, so the result is a pure function of (text, mode, signature)."""
+have respelled the canonical text, so the text - not the generator's tree - is the ground truth).
+
+Structural candidates (`tree_candidates`): sub-trees are replaced by the simplest alternative of
+their sort (`x`, `0`, `()` for expressions, `pass` for statements, `_` / `0` for patterns, an `if x:`
+header for compound statements, `x=<expr>` / `<expr>` as the simplest statement around an
+expression), children are hoisted over their parents, operators are replaced by the simplest one.
+Textual candidates (`text_candidates`): matched parentheses, bracket kinds, token windows, line
+windows, line breaks, literal / name spellings, layout oddities (tabs, CR, form feeds, continuation
+lines, comments, trailing blanks) and inter-token blanks are deleted or normalised.
+
+The canonical leaves are `x` and `0` on purpose: `a`, `e`, `o`, `1`, `2` are special to xonsh's
+tokenizer (redirect prefixes), so a simplification must not introduce them.
+
+Phase 1 takes a candidate iff it is strictly smaller in a well-founded order, CPython still accepts
+it and the real parser fails on it with the *same signature*.  When phase 1 is stuck on a *rejection*,
+phase 2 tries the context-preserving structural candidates (no statement-level hoists) once more,
+accepting any rejection - this folds e.g. `match*x<x` onto `match+x` and `@x+x` onto `@0`, whose
+parser errors are merely reported at different tokens - and phase 1 resumes with the new signature.
+Wrong-tree and compile failures never change signature (their signature is already positional).  First improvement wins
+and the search restarts from it, so the result is a pure function of (text, mode, signature)."""
 
 from __future__ import annotations
 
@@ -20,15 +32,14 @@ import tokenize
 
 from . import c01_rw as rw
 
+NAME0, NUM0 = "x", "0"
 _SIMPLE_OPS = {"(", ")", "[", "]", "{", "}", ",", ":", ".", ";", "=", "+"}
-
-
-_RANK = {ch: i for i, ch in enumerate("abcdefghijklmnopqrstuvwxyz'")}
+_RANK = {ch: i for i, ch in enumerate("xabcdefghijklmnopqrstuvwyz'\uff58")}
 
 
 def size_key(text):
     """(#tokens, token cost, length, oddness, ranked text): a well-founded order; smaller = simpler.
-    `pass` is the cheapest token, then `a` / `1` / other keywords, then other names and literals; the
+    `pass` is the cheapest token, then `x` / `0` / other keywords, then other names and literals; the
     final tie-break prefers lower case and the single quote."""
     try:
         toks = [t for t in tokenize.generate_tokens(io.StringIO(text).readline) if t.type not in rw._SKIP]
@@ -42,11 +53,11 @@ def size_key(text):
             if keyword.iskeyword(t.string):
                 cost += 2 if t.string in ("None", "True", "False") else 1
             else:
-                cost += 1 if t.string == "a" else (2 if len(t.string) == 1 and t.string.isascii() else 3)
+                cost += 1 if t.string == NAME0 else (2 if len(t.string) == 1 and t.string.isascii() else 3)
         elif t.type == T.OP:
             cost += 0 if t.string in _SIMPLE_OPS else 1
         elif t.type == T.NUMBER:
-            cost += 1 if t.string == "1" else 3
+            cost += 1 if t.string == NUM0 else (2 if t.string == "1" else 3)
         elif t.type == T.STRING:
             cost += 4
         else:
@@ -55,11 +66,20 @@ def size_key(text):
     return (len(toks), cost, len(text), odd, tuple(_RANK.get(ch, 100 + ord(ch)) for ch in text))
 
 
+def _stmt_rows(node):
+    r0 = node.lineno - 1
+    if getattr(node, "decorator_list", None):
+        r0 = min(r0, node.decorator_list[0].lineno - 1)
+    return r0, node.end_lineno
+
+
 def _dedent_block(src, stmts, indent):
     """Text of a statement list re-indented to `indent` (None if the rows are not a clean block)."""
     first, last = stmts[0], stmts[-1]
     rows = src.rows
     r0, r1 = _stmt_rows(first)[0], last.end_lineno
+    if r1 > len(rows):
+        return None
     # the block must own its rows completely
     if src.boff(first.lineno, first.col_offset) != src.starts[first.lineno - 1] + len(rw._indent_of(rows[first.lineno - 1])):
         return None
@@ -74,13 +94,6 @@ def _dedent_block(src, stmts, indent):
             return None
     txt = "".join(out)
     return txt if txt.endswith(("\n", "\r")) else txt + "\n"
-
-
-def _stmt_rows(node):
-    r0 = node.lineno - 1
-    if getattr(node, "decorator_list", None):
-        r0 = min(r0, node.decorator_list[0].lineno - 1)
-    return r0, node.end_lineno
 
 
 def _owns_rows(src, n):
@@ -117,99 +130,127 @@ def _cpy(text, mode):
         return None
 
 
-def candidates(text, mode):
-    """Shrink candidates of `text`, most aggressive first.  Pure function of (text, mode)."""
+_KW_OPS = ("and", "or", "in", "is")
+
+
+def tree_candidates(text, mode, hoist_to_stmt=True):
+    """Structural shrink candidates, outermost first.  With hoist_to_stmt=False the candidates that
+    move an expression into a new statement context are left out (phase 2)."""
     src = rw.Src(text)
     tree = _cpy(text, mode)
     rows = src.rows
-    if tree is not None:
-        body = getattr(tree, "body", None)
-        if isinstance(body, list) and len(body) > 1:
-            for s in body:
-                if _owns_rows(src, s):
-                    r0, r1 = _stmt_rows(s)
-                    yield "".join(rows[r0:r1])
-            for s in body:
-                if _owns_rows(src, s):
-                    r0, r1 = _stmt_rows(s)
-                    yield "".join(rows[:r0]) + "".join(rows[r1:])
-        order = []
+    if tree is None:
+        return
+    body = getattr(tree, "body", None)
+    if isinstance(body, list) and len(body) > 1:
+        for s in body:
+            if _owns_rows(src, s):
+                r0, r1 = _stmt_rows(s)
+                yield "".join(rows[r0:r1])
+        for s in body:
+            if _owns_rows(src, s):
+                r0, r1 = _stmt_rows(s)
+                yield "".join(rows[:r0]) + "".join(rows[r1:])
+    order = []
 
-        def visit(n, parent):
-            order.append((n, parent))
-            for ch in ast.iter_child_nodes(n):
-                visit(ch, n)
+    def visit(n, parent, stmt):
+        order.append((n, parent, stmt))
+        for ch in ast.iter_child_nodes(n):
+            visit(ch, n, n if isinstance(n, ast.stmt) else stmt)
 
-        visit(tree, None)
-        for n, parent in order:
-            if isinstance(n, ast.stmt):
-                r0, r1 = _stmt_rows(n)
-                owns = _owns_rows(src, n)
-                ind = rw._indent_of(rows[r0]) if r0 < len(rows) else ""
-                if owns:
-                    pre, post = "".join(rows[:r0]), "".join(rows[r1:])
-                    hrow = rows[n.lineno - 1]
-                    eol = hrow[len(hrow.rstrip("\r\n")) :] or "\n"
-                    blocks = []
-                    for fld in ("body", "orelse", "finalbody"):
-                        sub = getattr(n, fld, None)
-                        if isinstance(sub, list) and sub and isinstance(sub[0], ast.stmt):
-                            blocks.append(sub)
-                    for h in list(getattr(n, "handlers", [])) + list(getattr(n, "cases", [])):
-                        if h.body:
-                            blocks.append(h.body)
-                    # hoist a child block over the compound statement
-                    for sub in blocks:
-                        blk = _dedent_block(src, sub, ind)
-                        if blk:
-                            yield pre + blk + post
-                        else:
-                            bs, be = src.span(sub[0])[0], src.span(sub[-1])[1]
-                            yield pre + ind + text[bs:be] + eol + post
-                    # hoist a nearest expression descendant as an expression statement
-                    if not isinstance(n, ast.Expr):
-                        for ch in _near_exprs(n):
-                            cs, ce = src.span(ch)
+    visit(tree, None, None)
+    for n, parent, stmt in order:
+        if isinstance(n, ast.stmt):
+            r0, r1 = _stmt_rows(n)
+            owns = _owns_rows(src, n)
+            ind = rw._indent_of(rows[r0]) if r0 < len(rows) else ""
+            if owns:
+                pre, post = "".join(rows[:r0]), "".join(rows[r1:])
+                hrow = rows[n.lineno - 1]
+                eol = hrow[len(hrow.rstrip("\r\n")) :] or "\n"
+                blocks = []
+                for fld in ("body", "orelse", "finalbody"):
+                    sub = getattr(n, fld, None)
+                    if isinstance(sub, list) and sub and isinstance(sub[0], ast.stmt):
+                        blocks.append(sub)
+                for h in list(getattr(n, "handlers", [])) + list(getattr(n, "cases", [])):
+                    if h.body:
+                        blocks.append(h.body)
+                # hoist a child block over the compound statement
+                for sub in blocks:
+                    blk = _dedent_block(src, sub, ind)
+                    if blk:
+                        yield pre + blk + post
+                    else:
+                        bs, be = src.span(sub[0])[0], src.span(sub[-1])[1]
+                        yield pre + ind + text[bs:be] + eol + post
+                # the simplest statements around a nearest expression: `<expr>` and `x=<expr>`
+                if hoist_to_stmt:
+                    for ch in _near_exprs(n):
+                        cs, ce = src.span(ch)
+                        if not isinstance(n, ast.Expr):
                             yield pre + ind + text[cs:ce] + eol + post
-                    # simplest compound statement around the same block: `if a:`
-                    for sub in blocks:
-                        blk = _dedent_block(src, sub, ind + " ")
-                        if blk:
-                            yield pre + ind + "if a:" + eol + blk + post
-                        else:
-                            bs, be = src.span(sub[0])[0], src.span(sub[-1])[1]
-                            yield pre + ind + "if a:" + text[bs:be] + eol + post
-                            yield pre + ind + "if a:" + eol + ind + " " + text[bs:be] + eol + post
-                if not isinstance(n, ast.Pass):
-                    s, e = src.span(n)
-                    if getattr(n, "decorator_list", None):
-                        s = min(s, src.span(n.decorator_list[0])[0] - 1)
-                    yield text[:s] + "pass" + text[e:]
-            elif isinstance(n, ast.expr) and hasattr(n, "end_col_offset"):
-                if isinstance(n, ast.FormattedValue) or (isinstance(parent, ast.JoinedStr) and isinstance(n, ast.Constant)):
-                    continue
+                        if not (isinstance(n, ast.Assign) and len(n.targets) == 1 and isinstance(n.targets[0], ast.Name) and n.targets[0].id == NAME0):
+                            yield pre + ind + NAME0 + "=" + text[cs:ce] + eol + post
+                # simplest compound statement around the same block: `if x:`
+                for sub in blocks:
+                    blk = _dedent_block(src, sub, ind + " ")
+                    if blk:
+                        yield pre + ind + "if " + NAME0 + ":" + eol + blk + post
+                    else:
+                        bs, be = src.span(sub[0])[0], src.span(sub[-1])[1]
+                        yield pre + ind + "if " + NAME0 + ":" + text[bs:be] + eol + post
+                        yield pre + ind + "if " + NAME0 + ":" + eol + ind + " " + text[bs:be] + eol + post
+            if not isinstance(n, ast.Pass):
                 s, e = src.span(n)
-                cur = text[s:e]
-                for simple in ("a", "1", "()"):
-                    if cur != simple:
-                        yield text[:s] + simple + text[e:]
-                for ch in ast.iter_child_nodes(n):
-                    if isinstance(ch, ast.expr) and hasattr(ch, "end_col_offset") and not isinstance(ch, ast.FormattedValue):
-                        cs, ce = src.span(ch)
-                        if s <= cs and ce <= e and (cs, ce) != (s, e):
-                            yield text[:s] + text[cs:ce] + text[e:]
-                    elif isinstance(ch, ast.FormattedValue):
-                        cs, ce = src.span(ch.value)
+                if getattr(n, "decorator_list", None):
+                    s = min(s, src.span(n.decorator_list[0])[0] - 1)
+                yield text[:s] + "pass" + text[e:]
+        elif isinstance(n, ast.expr) and hasattr(n, "end_col_offset"):
+            if isinstance(n, ast.FormattedValue) or (isinstance(parent, ast.JoinedStr) and isinstance(n, ast.Constant)):
+                continue
+            s, e = src.span(n)
+            cur = text[s:e]
+            for simple in (NAME0, NUM0, "()"):
+                if cur != simple:
+                    yield text[:s] + simple + text[e:]
+            for ch in ast.iter_child_nodes(n):
+                if isinstance(ch, ast.expr) and hasattr(ch, "end_col_offset") and not isinstance(ch, ast.FormattedValue):
+                    cs, ce = src.span(ch)
+                    if s <= cs and ce <= e and (cs, ce) != (s, e):
                         yield text[:s] + text[cs:ce] + text[e:]
-            elif isinstance(n, ast.pattern):
-                s, e = src.span(n)
-                for simple in ("_", "1"):
-                    if text[s:e] != simple:
-                        yield text[:s] + simple + text[e:]
-                for ch in ast.iter_child_nodes(n):
-                    if isinstance(ch, ast.pattern):
-                        cs, ce = src.span(ch)
-                        yield text[:s] + text[cs:ce] + text[e:]
+                elif isinstance(ch, ast.FormattedValue):
+                    cs, ce = src.span(ch.value)
+                    yield text[:s] + text[cs:ce] + text[e:]
+            # an inner expression in the simplest statement of its own (keeps what precedes it on the line)
+            if hoist_to_stmt and stmt is not None and not isinstance(parent, ast.stmt) and _owns_rows(src, stmt):
+                r0, r1 = _stmt_rows(stmt)
+                ind = rw._indent_of(rows[r0])
+                hrow = rows[stmt.lineno - 1]
+                eol = hrow[len(hrow.rstrip("\r\n")) :] or "\n"
+                yield "".join(rows[:r0]) + ind + NAME0 + "=" + cur + eol + "".join(rows[r1:])
+        elif isinstance(n, ast.pattern):
+            s, e = src.span(n)
+            for simple in ("_", NUM0):
+                if text[s:e] != simple:
+                    yield text[:s] + simple + text[e:]
+            for ch in ast.iter_child_nodes(n):
+                if isinstance(ch, ast.pattern):
+                    cs, ce = src.span(ch)
+                    yield text[:s] + text[cs:ce] + text[e:]
+    # operators: the simplest of their kind
+    for t in src.toks:
+        if (t.type == T.OP and t.string not in _SIMPLE_OPS and t.string not in ("->", ":=", "...", "!", "@")) or (t.type == T.NAME and t.string in _KW_OPS):
+            s, e = src.off(t.start), src.off(t.end)
+            for op in ("=", "+", "<"):
+                if op != t.string:
+                    yield text[:s] + op + text[e:]
+
+
+def text_candidates(text, mode):
+    """Textual shrink candidates (parentheses, windows, layout, spellings, blanks)."""
+    src = rw.Src(text)
+    rows = src.rows
     # matched parentheses: drop them; other brackets: turn into parentheses
     yield from rw.r_paren_remove(src)
     stack = []
@@ -259,21 +300,21 @@ def candidates(text, mode):
             while i >= 0:
                 yield text[:i] + b + text[i + len(a) :]
                 i = text.find(a, i + 1)
-    stripped = "".join(r.rstrip(" \t\f\r\n") + ("\n" if r.endswith(("\n", "\r")) else "") for r in rows)
-    yield stripped
+    yield "".join(r.rstrip(" \t\f\r\n") + ("\n" if r.endswith(("\n", "\r")) else "") for r in rows)
     yield "".join(r.lstrip(" \t\f") if (not r.strip() or r.lstrip(" \t\f").startswith("#")) else r for r in rows)
     for new in rw.r_indent(src):
         yield new
         break
-    # literal / name / operator simplification
-    ftoks = src.toks
+    # literal / name spellings
     fstack = []
-    for t in ftoks:
+    for t in src.toks:
         s, e = src.off(t.start), src.off(t.end)
-        if t.type == T.NUMBER and t.string != "1":
-            yield text[:s] + "1" + text[e:]
+        if t.type == T.NUMBER and t.string != NUM0:
+            yield text[:s] + NUM0 + text[e:]
+            if t.string != "1":
+                yield text[:s] + "1" + text[e:]  # `0or`, `0b` ... are not tokens: second simplest number
         elif t.type == T.STRING:
-            for lit in ("''", "'a'", "b''", t.string.lstrip("uUrRbB"), t.string[1:]):
+            for lit in ("''", "'x'", "b''", t.string.lstrip("uUrRbB"), t.string[1:]):
                 if lit != t.string:
                     yield text[:s] + lit + text[e:]
             if len(t.string) >= 6 and t.string[-3:] in ("'''", '"""'):
@@ -306,14 +347,10 @@ def candidates(text, mode):
         elif t.type == T.COMMENT:
             yield text[:s] + text[e:]
             yield text[:s] + "#" + text[e:]
-        elif t.type == T.NAME and not keyword.iskeyword(t.string) and t.string != "a":
-            for nm in ("a", t.string[0], "é", "\uff41", "case"):
+        elif t.type == T.NAME and not keyword.iskeyword(t.string) and t.string != NAME0:
+            for nm in (NAME0, "a", "r", t.string[0], "é", "\uff58", "case"):
                 if nm != t.string:
                     yield text[:s] + nm + text[e:]
-        elif t.type == T.OP and t.string not in _SIMPLE_OPS and t.string not in ("->", ":=", "...", "!", "@"):
-            for op in ("=", "+", "<"):
-                if op != t.string:
-                    yield text[:s] + op + text[e:]
     # whitespace gaps: shrink to one blank, then to nothing
     for a, b, _ in rw._real_pairs(src):
         if a.end[1] < b.start[1]:
@@ -325,14 +362,40 @@ def candidates(text, mode):
         yield text[:-1]
 
 
+def candidates(text, mode):
+    yield from tree_candidates(text, mode, True)
+    yield from text_candidates(text, mode)
+
+
+_REJECT_KINDS = ("reject:", "crash:", "hang:")
+
+
 class Minimiser:
+    """evaluate(text, mode) -> None (not a CPython program) | 'ok' | failure signature."""
+
     def __init__(self, evaluate):
         self.evaluate = evaluate
         self.memo = {}
+        self.memo2 = {}
         self.evals = 0
-        self.steps = 0
 
-    def minimise(self, text, mode, sig):
+    def _first(self, cur, mode, cands, accept):
+        cur_size = size_key(cur)
+        seen = set()
+        for c in cands:
+            if c in seen or c == cur or not c.strip():
+                continue
+            seen.add(c)
+            if size_key(c) >= cur_size:
+                continue
+            self.evals += 1
+            r = self.evaluate(c, mode)
+            if accept(r):
+                return c, r
+        return None, None
+
+    def phase1(self, text, mode, sig):
+        """Fixpoint of same-signature shrinking."""
         path = []
         cur = text
         while True:
@@ -341,28 +404,38 @@ class Minimiser:
             if res is not None:
                 break
             path.append(k)
-            cur_size = size_key(cur)
-            nxt = None
-            seen = set()
-            for c in candidates(cur, mode):
-                if c in seen or c == cur:
-                    continue
-                seen.add(c)
-                if not c.strip():
-                    continue
-                if size_key(c) >= cur_size:
-                    continue
-                self.evals += 1
-                if self.evaluate(c, mode) == sig:
-                    nxt = c
-                    break
+            nxt, _ = self._first(cur, mode, candidates(cur, mode), lambda r: r == sig)
             if nxt is None:
                 res = cur
                 break
-            self.steps += 1
             cur = nxt
         if len(self.memo) > 300000:
             self.memo.clear()
         for k in path:
             self.memo[k] = res
+        return res
+
+    def minimise(self, text, mode, sig):
+        """-> (minimal text, its signature)."""
+        path = []
+        cur, csig = text, sig
+        while True:
+            cur = self.phase1(cur, mode, csig)
+            k = (mode, cur, csig)
+            res = self.memo2.get(k)
+            if res is not None:
+                break
+            path.append(k)
+            if not csig.startswith(_REJECT_KINDS):
+                res = (cur, csig)
+                break
+            nxt, nsig = self._first(cur, mode, tree_candidates(cur, mode, False), lambda r: r is not None and r.startswith(_REJECT_KINDS))
+            if nxt is None:
+                res = (cur, csig)
+                break
+            cur, csig = nxt, nsig
+        if len(self.memo2) > 300000:
+            self.memo2.clear()
+        for k in path:
+            self.memo2[k] = res
         return res
